@@ -57,7 +57,7 @@ theorem splitEq_eq (s r : Bytes) (h : ∀ c ∈ s, c ≠ 61) : splitEq (s ++ 61 
     simp [splitEq, ha, this]
 
 /-- decoding one segment gives the pair back. -/
-theorem decode_seg (kv : KV) : decodeSeg (seg kv) = some kv := by
+theorem decode_seg (t : HexTab) (kv : KV) : decodeSeg t (seg kv) = some kv := by
   obtain ⟨k, v⟩ := kv
   unfold decodeSeg seg
   by_cases hv : v.isEmpty = true
@@ -67,21 +67,21 @@ theorem decode_seg (kv : KV) : decodeSeg (seg kv) = some kv := by
   · simp only [hv]
     simp [splitEq_eq _ _ (fun c hc => (quote_no_sep k c hc).2), unquote_quote]
 
-theorem scanOne_last (kv : KV) : scanOne (seg kv) = (some kv, []) := by
+theorem scanOne_last (t : HexTab) (kv : KV) : scanOne t (seg kv) = (some kv, []) := by
   unfold scanOne
   rw [splitAmp_noamp _ (seg_no_amp kv)]
   simp [decode_seg]
 
-theorem scanOne_more (kv : KV) (r : Bytes) : scanOne (seg kv ++ 38 :: r) = (some kv, r) := by
+theorem scanOne_more (t : HexTab) (kv : KV) (r : Bytes) : scanOne t (seg kv ++ 38 :: r) = (some kv, r) := by
   unfold scanOne
   rw [splitAmp_amp _ _ (seg_no_amp kv)]
   simp [decode_seg]
 
-theorem scanAll_nil : scanAll [] = some [] := by unfold scanAll; rfl
+theorem scanAll_nil (t : HexTab) : scanAll t [] = some [] := by unfold scanAll; rfl
 
-theorem scanAll_cons (c : UInt8) (cs : Bytes) :
-    scanAll (c :: cs) =
-      (scanOne (c :: cs)).1.bind fun kv => (scanAll (scanOne (c :: cs)).2).map (kv :: ·) := by
+theorem scanAll_cons (t : HexTab) (c : UInt8) (cs : Bytes) :
+    scanAll t (c :: cs) =
+      (scanOne t (c :: cs)).1.bind fun kv => (scanAll t (scanOne t (c :: cs)).2).map (kv :: ·) := by
   conv => lhs; unfold scanAll
 
 def nonEmptyKV (kv : KV) : Bool := !(kv.1.isEmpty && kv.2.isEmpty)
@@ -133,12 +133,56 @@ theorem parse_query (l : List KV) : parse (query l) = some (l.filter nonEmptyKV)
       | cons c cs =>
         rw [scanAll_cons, ← hs, scanOne_more]
         simp only
-        cases hsa : scanAll (query (kv2 :: rest2)) with
+        cases hsa : scanAll .full (query (kv2 :: rest2)) with
         | none => simp [hsa] at ih
         | some x =>
           simp only [hsa, Option.map_some, Option.some.injEq] at ih ⊢
           simp only [List.filter_cons, ← ih, Option.bind_some, Option.map_some]
           simp [nonEmptyKV]
+
+/-- decoding a segment with the 256-entry table never panics. -/
+theorem decodeSeg_full_isSome (s : Bytes) : (decodeSeg .full s).isSome = true := by
+  unfold decodeSeg
+  split
+  · rename_i k _
+    simp [Option.isSome_map, unquote_full_total true k]
+  · rename_i k v _
+    have hk := unquote_full_total true k
+    have hv := unquote_full_total true v
+    cases h1 : unquote .full true k with
+    | none => simp [h1] at hk
+    | some k' =>
+      cases h2 : unquote .full true v with
+      | none => simp [h2] at hv
+      | some v' => simp
+
+theorem scanAll_full_isSome : ∀ (n : Nat) (b : Bytes), b.length ≤ n → (scanAll .full b).isSome = true := by
+  intro n
+  induction n with
+  | zero =>
+    intro b hb
+    have : b = [] := List.length_eq_zero_iff.mp (by omega)
+    subst this; simp [scanAll_nil]
+  | succ n ih =>
+    intro b hb
+    cases b with
+    | nil => simp [scanAll_nil]
+    | cons c cs =>
+      rw [scanAll_cons]
+      have h1 : (scanOne .full (c :: cs)).1.isSome = true := decodeSeg_full_isSome _
+      have hlt : (scanOne .full (c :: cs)).2.length < (c :: cs).length := splitAmp_rest_lt c cs
+      have h2 := ih (scanOne .full (c :: cs)).2 (by omega)
+      cases ha : (scanOne .full (c :: cs)).1 with
+      | none => simp [ha] at h1
+      | some kv =>
+        cases hb2 : scanAll .full (scanOne .full (c :: cs)).2 with
+        | none => simp [hb2] at h2
+        | some l => simp
+
+/-- `Args.ParseBytes` (256-entry hex table) returns on every byte string: no panic point. -/
+theorem parse_total (b : Bytes) : (parse b).isSome = true := by
+  unfold parse
+  simp [Option.isSome_map, scanAll_full_isSome b.length b (Nat.le_refl _)]
 
 /-- well-formed metadata (the raw protocol's supported set): no pair is (empty, empty). -/
 def WF (l : List KV) : Prop := ∀ kv ∈ l, nonEmptyKV kv = true
